@@ -68,7 +68,7 @@ type Zone struct {
 	KSK, ZSK *Key
 	CloneRR  *dns.DNSKEY
 
-	nsecNames []string          // canonical order
+	nsecNames []string // canonical order
 	nsec      map[string]*dns.NSEC
 	n3hash    map[string]string // name -> hash (upper-case base32hex) for names holding an NSEC3
 	n3order   []string          // hashes, sorted
